@@ -39,6 +39,12 @@ type Store = walstore.TendermintWALStore[starknet.Value, starknet.Hash, starknet
 // generous: a slow machine must not look like a hang of the code under test
 const opDeadline = 180 * time.Second
 
+// driverDeadline bounds one answer of the Lean driver (our own model, not the code under test). Round 6: 60 s was
+// not a generous margin on a machine shared by 20 builders (load average 500: an answer that takes 1 s took over a
+// minute and runs on the unchanged tree ended in `no-failing-input-found`); a dead driver is still noticed at
+// once (EOF on its pipe).
+const driverDeadline = 20 * time.Minute
+
 // openReal runs the real NewTendermintWALStore; panics and hangs are reported as errors.
 func openReal(dbPath string) (st Store, err error) {
 	finished := lib.WithDeadline(opDeadline, func() {
